@@ -39,7 +39,9 @@ func monitorFile(file string) bool {
 	return strings.Contains(file, "zz_verif_") || strings.Contains(file, "/internal/verif/") || strings.HasSuffix(file, "_test.go")
 }
 
-func short(fn string) string { return strings.TrimPrefix(strings.TrimPrefix(fn, module), "/") }
+func short(fn string) string {
+	return strings.TrimPrefix(strings.TrimPrefix(strings.TrimPrefix(fn, module), "/"), ".")
+}
 
 func shortFile(p string) string {
 	if i := strings.Index(p, "go-libp2p-kad-dht/"); i >= 0 {
